@@ -1,5 +1,5 @@
 #!/bin/sh
 # usage: tools/regress_refactors.sh [dir]   - every benign refactor <dir>/<P>/r<k>/patch.diff against all checks (8 at a time);
 #   prints only the checks that did not pass: rc=1 is a FALSE ALARM (to be fixed in the machinery), rc=2 fails closed
-D="${1:-/tmp/refac_out}"
+D="${1:-/verif/refactors/round1}"
 ls "$D"/*/r*/patch.diff | xargs -P 8 -I{} sh -c 'o=$(/verif/tools/try_seed.sh {} | grep -v "rc=0" | cut -c1-200 | tr "\n" "|"); echo "{}: $o"' | sort
